@@ -8,6 +8,8 @@ R-C01-1  the closed-form aggregation sum is the doubling recurrence S <- S + S*T
 R-C01-2  padding and table have one origin at both mixed MSMs (prover: the statement; verifier: the statement selected by the index
          returned from the consistency function, vectors sized by the length returned with it) -- breaks mixed-capacity configurations
 R-C01-3  prover and verifier both build the range polynomial vector d with radix 2 (conditional idiom rule)
+R-C01-4  the prover refuses no valid witness: its witness-dependent rejections are exactly the five documented checks, with the right
+         constants and quantifiers (= R-C06-1/2; an honest prover that is refused yields no accepted proof)
 """
 from . import msm, recurrence, weights
 
@@ -18,7 +20,7 @@ ASSUMPTIONS = ['induction recorded in DESIGN.md: T_i = z^(2*2^i), S_i = sum_{j=1
 RULE_TEXT = 'one obligation per structural clause; non-trivial = decided from a normal form or argument term'
 
 
-def run(ctx):
+def _run(ctx):
     rep = ctx.rep
     g = weights.gate(ctx, 'R-C01-1')
     if g is not None:
@@ -29,3 +31,10 @@ def run(ctx):
         msm.check_one_origin(ctx, 'R-C01-2', p, 'prover')
         recurrence.check_constants(ctx, 'R-C01-3', p)
     msm.check_verify_msm(ctx, 'R-C01-2')
+
+
+def run(ctx):
+    _run(ctx)
+    from . import C06
+    from .common import shared
+    shared(ctx, C06.run, 'R-C06', 'R-C01-4')
